@@ -146,7 +146,19 @@ def _i8vals(shape, seed, salt):
 
 # ----------------------------------------------------------------------------
 # profiles: which optional fields are present
+CORE3 = {"rich", "bare", "partial", "hyper2", "plain", "a", "small", "int64", "t2", "t1", "e2r2", "e3r1", "e1",
+         "two-chr", "one-chr", "three-chr"}
+
+
 def profiles(name, tier):
+    """tier 'core3': the three structurally most different profiles of the pool (depth-4 histories)"""
+    if tier == "core3":
+        full = _profiles(name, "quick")
+        return [p for p in full if p["id"] in CORE3][:3]
+    return _profiles(name, tier)
+
+
+def _profiles(name, tier):
     """Pool of build profiles for one class, from rich to poor.  Each is a dict; the pool spans
     all labels + grouped  ⊃  all labels  ⊃  some labels  ⊃  none, 1 vs 2 traits, 2 vs 3 taxa,
     ASCII vs non-ASCII labels.  tier: 'quick' (4 profiles) ⊂ 'thorough' (5) ⊂ 'wide' (6; used for the
